@@ -174,6 +174,13 @@ pub static ALLOW_SUBSET_RANDOM: std::sync::atomic::AtomicBool = std::sync::atomi
 /// propagators see bound changes larger than 2³¹ in one event). Set per case by the stream.
 pub static WIDE_DECL: std::sync::atomic::AtomicBool = std::sync::atomic::AtomicBool::new(false);
 
+thread_local! {
+    /// C06: literal variables (by index) that are to be created with `new_literal_for_predicate`
+    /// for the given predicate over an earlier variable; the model contains the equivalence as an
+    /// ordinary constraint. Set per case by the proof stream.
+    pub static LIT_DEFS: std::cell::RefCell<Vec<(usize, crate::model::Atom)>> = const { std::cell::RefCell::new(Vec::new()) };
+}
+
 pub const NUM_VARSEL: usize = 10;
 pub const NUM_VALSEL: usize = 14;
 
